@@ -25,7 +25,10 @@ with any declared length, long-form lengths, trailing bytes - with all enclosing
 key parse to a secret whose public key equals the parsed generated public key; an Ed25519 pair built by the harness (SHA-512, \
 clamp, base-point multiplication with curve25519-dalek) in OpenSSL DER form converts to a matching X25519 pair; PEM == DER; \
 concatenated PEM public keys parse to the same keys in order; canonical layouts always parse; on any input no panic; when a \
-DER input is accepted, the harness's own lenient TLV walk must extract the same key bytes. Non-trivial = case with >= 1 \
+DER input is accepted, the harness's own lenient TLV walk must extract the same key bytes, and the input must be the \
+documented structure - SEQUENCE { [INTEGER,] SEQUENCE { OID X25519 | Ed25519 }, key field of exactly 32 key bytes } with \
+nothing else inside any container (tolerated, as the DER library does on the pinned tree: tag class bits, non-minimal \
+lengths, any INTEGER value, bytes after the outermost element). Non-trivial = case with >= 1 \
 mutation or a non-default PEM variant; distinct = hash of the case";
 
 #[derive(Clone, Debug, Serialize, Deserialize)]
@@ -203,6 +206,93 @@ fn lenient(data: &[u8], private: bool) -> Option<(u8, [u8; 32])> {
     }
 }
 
+/// Is `data` the documented key structure? The walk tolerates what the DER library tolerates and the key layout does not
+/// depend on - tag class / constructed bits, the high-tag-number form, non-minimal length encodings, any INTEGER value,
+/// any unused-bits byte, bytes after the outermost element - and nothing else: every container must hold exactly the
+/// documented children (SEQUENCE { [INTEGER,] SEQUENCE { OID }, key field }), the OID must be X25519 or Ed25519 and the
+/// key field must hold exactly 32 key bytes (behind the inner `04 20` header for a private key).
+pub fn structural(data: &[u8], private: bool) -> Result<(), &'static str> {
+    fn tlv(b: &[u8]) -> Option<(u32, &[u8], &[u8])> {
+        let t0 = *b.first()?;
+        let mut p = 1;
+        let mut num = (t0 & 0x1f) as u32;
+        if num == 0x1f {
+            num = 0;
+            loop {
+                let x = *b.get(p)?;
+                p += 1;
+                num = num.checked_mul(128)? | (x & 0x7f) as u32;
+                if x & 0x80 == 0 {
+                    break;
+                }
+            }
+        }
+        let l0 = *b.get(p)? as usize;
+        p += 1;
+        let len = if l0 < 0x80 {
+            l0
+        } else {
+            let n = l0 & 0x7f;
+            if n == 0 || n > 8 {
+                return None;
+            }
+            let mut v = 0usize;
+            for _ in 0..n {
+                v = v.checked_mul(256)? | *b.get(p)? as usize;
+                p += 1;
+            }
+            v
+        };
+        let end = p.checked_add(len)?;
+        Some((num, b.get(p..end)?, &b[end..]))
+    }
+    let (t, mut body, _after) = tlv(data).ok_or("outer element not decodable")?;
+    if t != 16 {
+        return Err("outer element is not a SEQUENCE");
+    }
+    if private {
+        let (t, _v, r) = tlv(body).ok_or("INTEGER not decodable")?;
+        if t != 2 {
+            return Err("first element is not an INTEGER");
+        }
+        body = r;
+    }
+    let (t, alg, r) = tlv(body).ok_or("AlgorithmIdentifier not decodable")?;
+    if t != 16 {
+        return Err("AlgorithmIdentifier is not a SEQUENCE");
+    }
+    let (t, oid, alg_rest) = tlv(alg).ok_or("OID not decodable")?;
+    if t != 6 {
+        return Err("AlgorithmIdentifier does not start with an OID");
+    }
+    if !alg_rest.is_empty() {
+        return Err("AlgorithmIdentifier holds something after the OID");
+    }
+    if oid != [0x2b, 0x65, 0x6e] && oid != [0x2b, 0x65, 0x70] {
+        return Err("OID is neither X25519 nor Ed25519");
+    }
+    let (t, key, rest) = tlv(r).ok_or("key field not decodable")?;
+    if !rest.is_empty() {
+        return Err("the outer SEQUENCE holds something after the key field");
+    }
+    if private {
+        if t != 4 {
+            return Err("key field is not an OCTET STRING");
+        }
+        if key.len() != 34 || key[0] != 4 || key[1] != 32 {
+            return Err("key field is not an OCTET STRING holding 04 20 and 32 bytes");
+        }
+    } else {
+        if t != 3 {
+            return Err("key field is not a BIT STRING");
+        }
+        if key.len() != 33 {
+            return Err("BIT STRING does not hold 32 key bytes");
+        }
+    }
+    Ok(())
+}
+
 fn apply(data: &mut Vec<u8>, m: &Mut) {
     let len = data.len();
     match m {
@@ -372,6 +462,12 @@ fn oracle(c: &Case, st: &mut Stats) -> Result<(), String> {
                 let _ = parse_openssl_25519_privkey(&data);
                 if let Ok(s) = r1 {
                     st.label("mutated private DER accepted");
+                    if !(data.len() == 48 && (data[..16] == cli::PRIV_PREFIX_X || data[..16] == cli::PRIV_PREFIX_ED)) {
+                        st.label("accepted private DER that is not the canonical 48-byte layout");
+                    }
+                    if let Err(why) = structural(&data, true) {
+                        return Err(format!("private key accepted although the input is not the documented structure ({why}): {}", hex::encode(&data)));
+                    }
                     if let Some((oid, key)) = lenient(&data, true) {
                         let want: [u8; 32] = if oid == 0x70 { Sha512::digest(key)[..32].try_into().unwrap() } else { key };
                         if (oid == 0x70 || oid == 0x6e) && s.to_bytes() != want {
@@ -387,6 +483,12 @@ fn oracle(c: &Case, st: &mut Stats) -> Result<(), String> {
                 let _ = parse_openssl_25519_pubkeys_pem_many(&data);
                 if let Ok(p) = r1 {
                     st.label("mutated public DER accepted");
+                    if !(data.len() == 44 && (data[..12] == cli::PUB_PREFIX_X || data[..12] == cli::PUB_PREFIX_ED)) {
+                        st.label("accepted public DER that is not the canonical 44-byte layout");
+                    }
+                    if let Err(why) = structural(&data, false) {
+                        return Err(format!("public key accepted although the input is not the documented structure ({why}): {}", hex::encode(&data)));
+                    }
                     if let Some((oid, key)) = lenient(&data, false) {
                         if oid == 0x6e && *p.as_bytes() != key {
                             return Err(format!("accepted public DER {} yields a key that is not the key field of the input", hex::encode(&data)));
